@@ -212,6 +212,11 @@ SCENARIOS: list[dict] = [
      "V": ["from {P} import {D}\ndef f() -> int:\n    return {D}.fn()\nfrom {P}.{D} import C\nclass S2(C):\n    def get(self) -> int:\n        return self.v\n"]},
 ]
 
+from harness.c03.gen2 import WIDE_SCENARIOS  # noqa: E402
+
+N_BASE_SCENARIOS = len(SCENARIOS)
+SCENARIOS += WIDE_SCENARIOS
+
 SYNTAX_ERROR = "def broken(:\n"
 
 
@@ -277,8 +282,8 @@ EDITS = ["variant", "variant", "variant", "variant", "variant", "mid-variant", "
 
 
 class CWorld:
-    def __init__(self, rng, n: tuple[int, int] = (4, 7), only: list[str] | None = None) -> None:
-        pool = [s for s in SCENARIOS if only is None or s["name"] in only]
+    def __init__(self, rng, n: tuple[int, int] = (4, 7), only: list[str] | None = None, wide: bool = False) -> None:
+        pool = [s for s in (SCENARIOS if wide else SCENARIOS[:N_BASE_SCENARIOS]) if only is None or s["name"] in only]
         k = min(len(pool), rng.randint(*n))
         self.insts = [Instance(i, sc, rng) for i, sc in enumerate(rng.sample(pool, k))]
         for inst in self.insts:
@@ -388,9 +393,9 @@ class CWorld:
 
 
 def catalog_history(rng, nsteps: int, only: list[str] | None = None, kinds: list[str] | None = None,
-                    n: tuple[int, int] = (4, 7)) -> list[dict]:
+                    n: tuple[int, int] = (4, 7), wide: bool = False) -> list[dict]:
     """[{edits, files, touch}] — step 0 is the initial program."""
-    w = CWorld(rng, n=n, only=only)
+    w = CWorld(rng, n=n, only=only, wide=wide)
     out = []
     for k in range(nsteps):
         edits = []
@@ -424,13 +429,18 @@ def pair_histories() -> list[tuple[str, list[dict]]]:
     return out
 
 
-def packed_sweeps(rng=None, group: int = 10) -> list[tuple[str, list[dict]]]:
+def packed_sweeps(rng=None, group: int = 10, which: str = "all") -> list[tuple[str, list[dict]]]:
     """Every scenario × every variant of its defining module, `group` scenarios per world: at step k every
     scenario of the world switches its defining module to the next variant of its walk (the fixed walk
     v0 → v1 → … → v0 when `rng` is None, a random permutation otherwise); afterwards the middle modules walk
     through their variants.  The scenarios of one world share no module, so each diagnostic is attributable."""
     out = []
     scs = list(SCENARIOS)
+    if which == "base":
+        scs = scs[:N_BASE_SCENARIOS]
+    elif which == "wide":
+        scs = scs[N_BASE_SCENARIOS:]
+    tag = "" if which != "wide" else "w"
     for g0 in range(0, len(scs), group):
         part = scs[g0:g0 + group]
         insts = [Instance(i, sc, None) for i, sc in enumerate(part)]
@@ -470,7 +480,7 @@ def packed_sweeps(rng=None, group: int = 10) -> list[tuple[str, list[dict]]]:
                     inst.variant["M"] = to
             if edits:
                 steps.append({"edits": edits, "files": files(), "touch": []})
-        out.append((f"{'walk' if rng is None else 'shuffle'}-{g0 // group}", steps))
+        out.append((f"{tag}{'walk' if rng is None else 'shuffle'}-{g0 // group}", steps))
     return out
 
 
